@@ -8,7 +8,7 @@ TOK = {"ident": ["zz", "\\61 b", "-x"], "IDENT-and": ["and"], "ident-important":
        "expression(": ["expression("], "@charset-sp": ["@charset "], "@charset": ["@charset"], "@import": ["@import"], "@media": ["@media"],
        "@page": ["@page"], "@font-face": ["@font-face"], "@namespace": ["@namespace"], "@variables": ["@variables"], "@top-left": ["@top-left"],
        "@x": ["@x"], "hash": ["#abc", "#1"], "string": ['"s"', "'t'"], "uri": ["url(u)"], "number": ["1", "-.5"], "percentage": ["50%"],
-       "dimension": ["1px", "2e3"], "urange": ["u+0-7f"], "~=": ["~="], "|=": ["|="], "cdo": ["<!--"], "cdc": ["-->"], "S": [" ", "\t"],
+       "dimension": ["1px", "2e3"], "dimension-esc": ["1\\a x", "1\\70 x"], "number-huge": ["9" * 400, "1" + "0" * 400 + ".5"], "urange": ["u+0-7f"], "~=": ["~="], "|=": ["|="], "cdo": ["<!--"], "cdc": ["-->"], "S": [" ", "\t"],
        "comment": ["/*c*/"], "{": ["{"], "}": ["}"], "(": ["("], ")": [")"], "[": ["["], "]": ["]"], ";": [";"], ":": [":"], ",": [","], ".": ["."],
        "*": ["*"], ">": [">"], "+": ["+"], "!": ["!"], "/": ["/"], "=": ["="], "#": ["#"], "@": ["@"], "%": ["%"], "&": ["&"], "$": ["$"],
        "-": ["-"], "bs": ["\\"], "open-string": ['"abc', "'abc"], "open-comment": ["/* abc"], "open-url": ["url(abc", 'url("abc'],
@@ -20,9 +20,11 @@ CTX = {"sheet": "", "after-charset": '@charset "utf-8"', "import-prelude": "@imp
        "rgb-arg": "a { x: rgb(", "hsl-arg": "a { x: hsl(", "var-arg": "a { x: var(", "var-fallback": "a { x: var(y,", "calc-arg": "a { x: calc(", "url-open": "a { x: url(", "paren": "a { x: (", "bracket": "a { x: [",
        "style-attr": "", "margin-block": "@page { @top-left { "}
 NEST = {"{": ("{", "}"), "(": ("(", ")"), "[": ("[", "]"), "func": ("f(", ")"), "calc(": ("calc(", ")"), "not(": (":not(", ")"),
-        "@media": ("@media print {", "}"), "@x-block": ("@x {", "}"), "url(": ("url(", ")"), "rgb(": ("rgb(", ")"), "hsl(": ("hsl(", ")"), "var(": ("var(", ")"), "var-fallback": ("var(v,", ")"), "func-comma": ("f(1,", ")"),
+        "@media": ("@media print {", "}"), "@x-block": ("@x {", "}"), "url(": ("url(", ")"), "rgb(": ("rgb(", ")"), "hsl(": ("hsl(", ")"), "var(": ("var(", ")"), "var-fallback": ("var(v,", ")"), "func-comma": ("f(1,", ")"), "calc-sum": ("calc(1px + ", ")"),
         "paren-in-selector": ("a(", ")"), "attr-in-not": (":not([", "])"), "string-in-func": ('f("', '")'), "comment": ("/*", "*/")}
 TEXTS = {"plain": 'a { left: 0 } @media print { b { top: 1px } }', "malformed": 'a { left: } } @import "late"; b {{ x ]',
+         "charset-hex": '@charset "hex";\na { left: 0 }', "charset-css": '@charset "css";\na { left: 0 }',
+         "charset-rot13": '@charset "rot13";\na { left: 0 }', "charset-unknown": '@charset "no-such-encoding";\na { left: 0 }',
          "truncated-charset": "@charset ", "bom": "﻿a { left: 0 }", "charset-rule": '@charset "iso-8859-1";\na { content: "é" }', "empty": ""}
 
 
@@ -126,6 +128,16 @@ def graph_fetcher(graph, kind):
         if kind == "nothing":
             return ()
         txt = files[name]
+        if kind == "bad-encoding":
+            return "no-such-encoding", txt.encode("utf-8")
+        if kind.startswith("enc-"):
+            return kind[4:], txt.encode("utf-8")
+        if kind == "bytes-charset-unknown":
+            return None, ('@charset "no-such-encoding";' + txt).encode("ascii")
+        if kind.startswith("bytes-charset-"):
+            return None, ('@charset "%s";' % kind[14:] + txt).encode("ascii")
+        if kind == "bytes-undecodable":
+            return "ascii", txt.encode("ascii") + b" /* \xff\xfe */"
         if kind == "bytes-bom":
             return None, codecs.BOM_UTF8 + txt.encode("utf-8")
         if kind == "bytes-charset":
@@ -146,10 +158,16 @@ def run_row(item):
         if rid % 5 == 0:
             text += " }"      # sometimes closed afterwards
         o = observe(text, r["entry"], comments=opts[0], validate=opts[1])
+    elif k == "propvalue":
+        shape = {"long-ident-then-number": "a" * 40 + " 1", "many-idents": "a " * 30 + "1px", "many-numbers-then-ident": "1 " * 30 + "x",
+                 "many-strings-then-number": '"s" ' * 20 + "1", "nested-functions": "f(" * 12 + "1" + ")" * 12 + " x"}[r["shape"]]
+        text = "a { %s: %s }" % (r["name"], shape)
+        o = observe(text, "string", comments=opts[0], validate=True)
     elif k == "nest":
         op, cl = NEST[r["opener"]]
         d = r["depth"]
-        text = CTX[r["ctx"]] + op * d + "x" + (cl * d if r["close"] else "")
+        core = "1px" if r["opener"].startswith("calc") else "x"
+        text = CTX[r["ctx"]] + op * d + core + (cl * d if r["close"] else "")
         o = observe(text, "string", comments=opts[0], validate=opts[1])
     else:
         fetcher, root = graph_fetcher(r["graph"], r["fetch"])
